@@ -75,7 +75,17 @@ def execute(mod, case, log_on=False):
             sid = simid.install(id_mode)
             from . import simempty
             simempty.install()            # uninitialised memory behind a seam
-            stats = mod.run_case(case, sched)
+            # NumPy's floating-point error state is process-global state other code moves (np.seterr / np.errstate):
+            # "ignore" and "warn" (the default) are both legal worlds; the mode is part of the case
+            import numpy as _np
+            err_mode = (case.get("config") or {}).get("np_err") or ("ignore", "warn")[(case.get("sched_seed", 0) >> 5) & 1]
+            if err_mode not in ("ignore", "warn"):
+                raise InvalidCase("np_err")
+            _np.seterr(all=err_mode)
+            sched.count("np_err:" + err_mode)
+            # the property module works on a private copy: whatever the code under test does to data handed to it,
+            # the case (= the replay file) stays what was generated, so a re-run is the same experiment
+            stats = mod.run_case(copy.deepcopy(case), sched)
             if simempty.STATS["empty_calls"]:
                 sched.count("np_empty_calls_by_persim", simempty.STATS["empty_calls"])
             if sid.calls:
